@@ -33,6 +33,11 @@ enum Step {
     Sleep(u64),
 }
 
+fn two_sets_or_a_only(two_sets: bool) -> bool {
+    // the failing writer belongs to set a; with two sets set b still gets every event, so nothing is exempt there
+    !two_sets
+}
+
 fn markers_in(data: &[u8]) -> Vec<String> {
     let mut out = Vec::new();
     let mut i = 0;
@@ -81,7 +86,7 @@ impl Engine for FileE2e {
         let stall_mode = if overflow { 2 } else { ch.weighted(&[5, 3, 2]) }; // 0 none, 1 short stalls, 2 one very long stall
         let fault_budget = if overflow { 0 } else { fault_budget };
         let reuse = ch.chance(1, 2);
-        let writer_kind = ch.weighted(&[5, 2, 2, 2, 2]);
+        let writer_kind = if overflow { 0 } else { ch.weighted(&[5, 2, 2, 2, 2, 2]) };
         let max_size = *ch.pick(&[1usize << 30, 300, 120]);
         // (overflow mode: one big file, so retention never deletes what the oracle looks for)
         let max_size = if overflow { 1usize << 30 } else { max_size };
@@ -200,6 +205,23 @@ impl Engine for FileE2e {
                     Ok(())
                 },
                 b"\r\n",
+            ),
+            5 => emit_file::set_with_writer(
+                "logs/a/app.log",
+                |buf, evt| {
+                    use emit::Props as _;
+                    // fails for every third event AFTER having written part of the record
+                    let m = evt.props().get("marker").map(|v| v.to_string()).unwrap_or_default();
+                    let n = evt.props().pull::<i64, _>("n").unwrap_or(0);
+                    if n % 3 == 1 {
+                        buf.extend_from_slice(b"partial-record-of-a-failed-event:");
+                        buf.extend_from_slice(&m.as_bytes()[..4]);
+                        return Err(std::io::Error::new(std::io::ErrorKind::Other, "simulated formatting failure"));
+                    }
+                    buf.extend_from_slice(format!("marker={m}").as_bytes());
+                    Ok(())
+                },
+                b"\n",
             ),
             4 => emit_file::set_with_writer(
                 "logs/a/app.log",
@@ -395,7 +417,12 @@ impl Engine for FileE2e {
         }
         let cl = clog.lock().unwrap();
         if why.is_none() {
-            let all: Vec<String> = cl.emitted.iter().map(|(i, _)| format!("MK{:06}KM", i + 1)).collect();
+            let all: Vec<String> = cl
+                .emitted
+                .iter()
+                .filter(|(i, _)| !(writer_kind == 5 && two_sets_or_a_only(two_sets) && *i % 3 == 1))
+                .map(|(i, _)| format!("MK{:06}KM", i + 1))
+                .collect();
             // C07: flush true => everything emitted before it is written AND synced, in every set
             for (n_before, at, ms, ok, da, db) in &cl.flushes {
                 if !*ok || cl.after_burst.is_some() {
@@ -513,6 +540,24 @@ impl Engine for FileE2e {
                     }
                 }
                 for r in records {
+                    if writer_kind != 0 && !r.is_empty() {
+                        // custom writers: byte-identical records
+                        let ms = markers_in(r);
+                        let want: Option<Vec<u8>> = ms.first().map(|m| {
+                            let mut w = format!("marker={m}").into_bytes();
+                            if writer_kind == 4 {
+                                w.push(b'\n');
+                            }
+                            w
+                        });
+                        if want.as_deref() != Some(r) && !faults_fired {
+                            out.violate(
+                                "C10",
+                                "record_not_byte_identical",
+                                format!("a record in {path} is {:?}, not the bytes the writer produced for one event", String::from_utf8_lossy(r)),
+                            );
+                        }
+                    }
                     let n = markers_in(r).len();
                     if n > 1 {
                         out.violate("C10", "mangled_record", format!("a record in {path} holds {n} events: {:?}", String::from_utf8_lossy(r)));
